@@ -114,7 +114,10 @@ def run_cargo_kani(crate_dir, harnesses, extra_flags=(), timeout=3600, jobs=None
             out = p.stdout + "\n" + p.stderr
         except subprocess.TimeoutExpired as e:
             out = ((e.stdout or b"").decode() if isinstance(e.stdout, bytes) else (e.stdout or "")) + "\nTIMEOUT after %ds" % timeout
-        r = parse_kani_output(out).get(h)
+        parsed = parse_kani_output(out)
+        r = parsed.get(h.split("::")[-1])
+        if r is not None and not (r["harness"] == h or r["harness"].endswith("::" + h)):
+            r = None
         if r is None:
             r = {"harness": h, "status": "undecided", "failed_checks": [], "time_s": None, "checks": None, "checks_failed": None,
                  "covers": None, "unwinding_failure": False, "raw_tail": out[-2500:]}
